@@ -43,6 +43,10 @@ def check_fixed(cx, rep):
             bad = [k for k in ops if k not in ('f+', 'f-', 'f*', 'fneg', 'fma', 'f/')]
             rep.ob('ops', inst, not bad, 'float ops: %s' % ops, fn=inst, file=file, line=line,
                    msg='evaluation uses operations that are not single correctly-rounded IEEE ops: %s' % bad)
+            from .rounding import data_divisors
+            dd = data_divisors(a.ret)
+            rep.ob('ops', inst + ':divisors', not dd, 'no quotient by a coefficient or the argument', fn=inst, file=file, line=line,
+                   msg='evaluation divides by %s: zero there gives ±∞ / NaN although Σ cᵢxⁱ is finite' % (term_str(dd[0])[:100] if dd else ''))
             # rounding depth
             occ = rounding_occurrences(a.ret, nf)
             bound = 4 * (deg + 2)
